@@ -614,6 +614,70 @@ def _derives_from_results_map(ctx: Ctx, fn: FuncInfo, e, at: int, depth: int = 0
     return False
 
 
+class _HasattrForm(ast.NodeTransformer):
+    """`getattr(X, 'n', None) is None` -> `not hasattr(X, 'n')` (and `is not None` -> `hasattr`)."""
+
+    def visit_Compare(self, node: ast.Compare):
+        self.generic_visit(node)
+        if len(node.ops) == 1 and isinstance(node.ops[0], (ast.Is, ast.IsNot)) and isinstance(node.comparators[0], ast.Constant) \
+                and node.comparators[0].value is None and isinstance(node.left, ast.Call) and dotted(node.left.func) == 'getattr' \
+                and len(node.left.args) == 3 and isinstance(node.left.args[2], ast.Constant) and node.left.args[2].value is None:
+            h = ast.Call(func=ast.Name(id='hasattr', ctx=ast.Load()), args=node.left.args[:2], keywords=[])
+            return ast.UnaryOp(op=ast.Not(), operand=h) if isinstance(node.ops[0], ast.Is) else h
+        return node
+
+
+@rule('C16.FILTER-DEFAULT', ['C16'])
+def filter_default(ctx: Ctx):
+    """The decorator installs the identity filter exactly when the class has no filter_context at all - `hasattr`, which sees a
+    filter inherited from a parent task type or a mix-in; a test on the class's own namespace (`cls.__dict__` / `vars(cls)`)
+    replaces an inherited filter by the identity, and run() then sees the whole Lab context.  The default itself returns
+    its context argument unchanged."""
+    deco = ctx.P.func('tasks.task.<locals>.decorator')
+    cparam = deco.params[0].arg
+    ws = [n for n in walk_local(deco.node) if isinstance(n, ast.Assign) and len(n.targets) == 1 and isinstance(n.targets[0], ast.Attribute)
+          and n.targets[0].attr == 'filter_context' and isinstance(n.targets[0].value, ast.Name) and n.targets[0].value.id == cparam]
+    ws += [n.value for n in walk_local(deco.node) if isinstance(n, ast.Expr) and isinstance(n.value, ast.Call) and dotted(n.value.func) == 'setattr'
+           and len(n.value.args) == 3 and isinstance(n.value.args[1], ast.Constant) and n.value.args[1].value == 'filter_context']
+    if not ws:
+        raise AnalysisError('the decorator never installs a default filter_context')
+    import copy
+    need = formula_of(ctx, deco, f"not hasattr({cparam}, 'filter_context')")
+    for w in ws:
+        stmt = w if isinstance(w, ast.stmt) else next(n for n in walk_local(deco.node) if isinstance(n, ast.Expr) and n.value is w)
+        # the guard, with getattr-None tests read as hasattr tests
+        tests = []
+        cur = stmt
+        have = None
+        for n in walk_local(deco.node):
+            if isinstance(n, ast.If) and any(x is stmt for b in n.body for x in ast.walk(b)):
+                t = ast.fix_missing_locations(_HasattrForm().visit(copy.deepcopy(n.test)))
+                tests.append(formula_of(ctx, deco, t))
+            elif isinstance(n, ast.If) and any(x is stmt for b in n.orelse for x in ast.walk(b)):
+                t = ast.fix_missing_locations(_HasattrForm().visit(copy.deepcopy(n.test)))
+                tests.append(f_not(formula_of(ctx, deco, t)))
+        from ..formula import f_and
+        have = f_and(*tests) if tests else TRUE
+        ok = equivalent(have, need)
+        yield ctx.ob('C16.FILTER-DEFAULT', ok, deco, stmt, "default installed iff not hasattr(cls, 'filter_context')", '' if ok else
+                     f'the identity filter is installed when {show(have)}: a filter_context inherited from a parent task type or a mix-in is '
+                     'overwritten (or a missing one is never supplied)')
+        val = w.value if isinstance(w, ast.Assign) else w.args[2]
+        d = None
+        if isinstance(val, ast.Name):
+            d = ctx.P.func(f'tasks.{val.id}') if ctx.P.has_func(f'tasks.{val.id}') else None
+        okd = False
+        if d is not None:
+            body = [x for x in d.node.body if not (isinstance(x, ast.Expr) and isinstance(x.value, ast.Constant))]
+            ps = [a.arg for a in d.params]
+            okd = len(body) == 1 and isinstance(body[0], ast.Return) and isinstance(body[0].value, ast.Name) and len(ps) == 2 and body[0].value.id == ps[1]
+        elif isinstance(val, ast.Lambda):
+            ps = [a.arg for a in val.args.args]
+            okd = len(ps) == 2 and isinstance(val.body, ast.Name) and val.body.id == ps[1]
+        yield ctx.ob('C16.FILTER-DEFAULT', okd, deco, stmt, 'the default filter returns its context unchanged', '' if okd else
+                     f'the default filter `{src(val)}` is not the identity on the context', construct='default-identity')
+
+
 @rule('C16.FILTER-PROV', ['C16', 'C01'], min_instances=3)
 def filter_prov(ctx: Ctx):
     """The filtered_context that reaches run_or_load_task is task.filter_context(<the Lab's context>) for
